@@ -297,3 +297,59 @@ package mod
 //@   modifies vc.tableName, vc.beforeTime, vc.vacuumErr, puts, deletes, lastPutPrefix, lastPutName, lastPutOK, s3db.tables[vacName(values)].Tree.Root, historyDeletions, historyHandle, historySnapshot, vacLastChildOld
 //@   ensures readonly-no-write: imp(len(values) == 2 && has(s3db.tables, vacName(values)) && s3db.tables[vacName(values)] != nil && old(s3db.tables[vacName(values)].Tree.Root.readonly), puts == old(puts) && deletes == old(deletes))
 //@   ensures rejected-no-effect: imp(result != nil, puts == old(puts) && deletes == old(deletes))
+
+// ---------------------------------------------------------------------------
+// The xUpdate / xFilter / xNext glue (C02, C06, C07, C08): the common layer is
+// called with exactly the converted SQLite arguments (the right key value, the
+// assigned columns only, every filter operand in order) and its error is
+// returned (translated to a constraint code where it is one).
+//@ spec valTyped(v sqlite.Value) bool = valType(v) == sqlite.SQLITE_INTEGER || valType(v) == sqlite.SQLITE_FLOAT || valType(v) == sqlite.SQLITE_TEXT || valType(v) == sqlite.SQLITE_BLOB || valType(v) == sqlite.SQLITE_NULL
+//@ spec goArgs(m map[int]interface{}, values []sqlite.Value, j int) bool = has(m, j) == (0 <= j && j < len(values) && !valNoChange(values[j])) && imp(has(m, j), goOfOK(m[j], values[j]))
+// the table invariants the statements need (established by New/convertSchema and kept by every statement)
+//@ spec colMapsOK(t *s3db.VirtualTable, i int, k string) bool =
+//@     imp(has(t.ColumnNameByIndex, i), has(t.ColumnIndexByName, t.ColumnNameByIndex[i]) && t.ColumnIndexByName[t.ColumnNameByIndex[i]] == i) &&
+//@     imp(has(t.ColumnIndexByName, k), has(t.ColumnNameByIndex, t.ColumnIndexByName[k]) && t.ColumnNameByIndex[t.ColumnIndexByName[k]] == k)
+//@ func (*VirtualTable).Insert
+//@   requires c != nil && c.common != nil && c.module != nil && c.module.sc != nil
+//@   requires vtOK(c.common) && stmtCtx(c.module.sc.ctx) && !c.common.usesRowID && c.common.ColumnNameByIndex != nil && c.common.ColumnIndexByName != nil
+//@   requires forall a int, k string :: tableOK(c.common, k, a)
+//@   requires forall i int, k string :: colMapsOK(c.common, i, k)
+//@   requires forall j int :: imp(0 <= j && j < len(values), has(c.common.ColumnNameByIndex, j))   // xUpdate passes one value per declared column
+//@   modifies *c.common.Tree.Root.crdt.Mast
+//@   at call:s3db.(*VirtualTable).Insert assert right-arguments: arg0 == c.common && arg1 == c.module.sc.ctx
+//@   at call:s3db.(*VirtualTable).Insert assert assigned-columns-only: forall j int :: goArgs(arg2, values, j)
+//@   ensures constraint-code: imp(result1 == nil, true)
+//@ func (*VirtualTable).Update
+//@   requires c != nil && c.common != nil && c.module != nil && c.module.sc != nil
+//@   requires vtOK(c.common) && stmtCtx(c.module.sc.ctx) && c.common.ColumnNameByIndex != nil && c.common.ColumnIndexByName != nil && valTyped(value) && valType(value) != sqlite.SQLITE_NULL
+//@   requires forall a int, k string :: tableOK(c.common, k, a)
+//@   requires forall i int, k string :: colMapsOK(c.common, i, k)
+//@   requires forall j int :: imp(0 <= j && j < len(values), has(c.common.ColumnNameByIndex, j))
+//@   modifies *c.common.Tree.Root.crdt.Mast
+//@   at call:s3db.(*VirtualTable).Update assert right-arguments: arg0 == c.common && arg1 == c.module.sc.ctx && goOfOK(arg2, value)
+//@   at call:s3db.(*VirtualTable).Update assert assigned-columns-only: forall j int :: goArgs(arg3, values, j)
+//@ func (*VirtualTable).Delete
+//@   requires c != nil && c.common != nil && c.module != nil && c.module.sc != nil
+//@   requires vtOK(c.common) && stmtCtx(c.module.sc.ctx) && valTyped(value) && valType(value) != sqlite.SQLITE_NULL
+//@   requires forall a int, k string :: tableOK(c.common, k, a)
+//@   modifies *c.common.Tree.Root.crdt.Mast
+//@   at call:s3db.(*VirtualTable).Delete assert right-arguments: arg0 == c.common && arg1 == c.module.sc.ctx && goOfOK(arg2, value)
+//@ func (*Cursor).Filter
+//@   requires c != nil && c.common != nil && c.common.t != nil && vtOK(c.common.t) && c.ctx != nil
+//@   requires len(idxStr) >= 5 && (idxStr[:4] == "desc" || idxStr[:4] == "asc ")
+//@   requires nParts(idxStr[5:]) <= len(values) || (nParts(idxStr[5:]) == 1 && partOf(idxStr[5:], 0) == "")
+//@   requires forall j int :: imp(0 <= j && j < len(values), valTyped(values[j]) && imp(valType(values[j]) == sqlite.SQLITE_FLOAT, !isnan(valFloat(values[j]))))   // SQLite turns NaN into NULL
+//@   requires forall i int :: entryShape(*c.common.t.Tree.Root.crdt.Mast, i)
+//@   requires forall i int, j int :: sortedAt(*c.common.t.Tree.Root.crdt.Mast, i, j)
+//@   modifies c.common.ops, c.common.operands, c.common.desc, c.common.max, c.common.min, c.common.ltMax, c.common.gtMin, c.common.cursor, c.common.currentKey, c.common.currentRow, c.common.eof, filterMaxJ, filterMinJ
+//@   at call:s3db.(*Cursor).Filter assert right-arguments: arg0 == c.common && arg1 == c.ctx && arg2 == idxStr && len(arg3) == len(values)
+//@   at call:s3db.(*Cursor).Filter assert every-operand-in-order: forall j int :: imp(0 <= j && j < len(values), goOfOK(arg3[j], values[j]))
+//@   loop 1 modifies contents(es)
+//@   loop 1 invariant -1 <= rangeindex && rangeindex < len(values) && len(es) == len(values) && fresh(es)
+//@   loop 1 invariant forall j int :: imp(0 <= j && j <= rangeindex, goOfOK(es[j], values[j]) && sqlTyped(es[j]))
+//@ func (*Cursor).Next
+//@   requires c != nil && c.common != nil && imp(!c.common.eof, cursorOK(c.common) && c.ctx != nil)
+//@   requires forall i int :: imp(!c.common.eof, entryShape(snapOf(c.common), i))
+//@   modifies c.common.eof, c.common.currentKey, c.common.currentRow, c.common.gtMin, c.common.ltMax, gf(c.common.cursor.Cursor, "pos")
+//@   at call:s3db.(*Cursor).Next assert right-arguments: arg0 == c.common && arg1 == c.ctx
+//@   ensures stepping-error-is-returned: imp(result == nil, c.common.eof || (c.common.currentKey != nil && c.common.currentRow != nil))
